@@ -357,6 +357,9 @@ func ScriptOps() []mtypes.Op {
 }
 
 func modelOp(op mtypes.Op) refjson.EncOp {
+	if op.Delegate {
+		return refjson.EncOp{Kind: '"', Str: "inner", Label: op.Label}
+	}
 	if op.Raw != nil {
 		return refjson.EncOp{Raw: true, Text: string(op.Raw), Label: op.Label}
 	}
@@ -612,6 +615,29 @@ func marshalPolicing(r *evid.Run, prop string) {
 			}
 		}
 	})
+	// nested delegation: the script first hands the encoder to json.MarshalEncode for a value with its own
+	// MarshalJSONTo (a nested user call), then continues with every script of <= maxLen+1 further calls
+	deleg := mtypes.Op{Delegate: true, Label: "MarshalEncode(inner)"}
+	scripts(maxLen+1, func(ops []mtypes.Op, labels []string) {
+		full := append([]mtypes.Op{deleg}, ops...)
+		lab := append([]string{deleg.Label}, labels...)
+		for ret := 0; ret < 3; ret += 2 {
+			for pi := range poss {
+				for ci := 0; ci < len(cars); ci += 2 {
+					if poss[pi].Name == "map key" && !cars[ci].keyOK {
+						continue
+					}
+					n++
+					nt++
+					if msg := RunScript(&poss[pi], &cars[ci], full, ret, true); msg != "" {
+						cs := Case{Part: "marshal-script", Position: poss[pi].Name, Carrier: cars[ci].name, Script: append([]string(nil), lab...), Ret: ret, Ignore: true}
+						r.Violation(fmt.Sprintf("%s|ms|%s|%s|%s|%d|true", prop, cs.Position, cs.Carrier, strings.Join(lab, " "), ret), msg, cs, func() bool { return replayCase(cs) != "" })
+					}
+				}
+			}
+		}
+	})
+	r.Bound("nested delegation: json.MarshalEncode of a value with its own MarshalJSONTo followed by every script of <=%d further calls (errors ignored) x {nil, ErrUnsupported} x %d positions x 2 carriers", maxLen+1, len(poss))
 	r.Evaluations.Add(n)
 	r.Nontrivial.Add(nt)
 	r.Sample(Case{Part: "marshal-script", Position: "first field of two", Carrier: cars[0].name, Script: []string{"null", "}", "{", `"k"`, "1"}, Ret: 0})
@@ -910,6 +936,9 @@ func replayCase(cs Case) string {
 		alpha := ScriptOps()
 		var ops []mtypes.Op
 		for _, l := range cs.Script {
+			if l == "MarshalEncode(inner)" {
+				ops = append(ops, mtypes.Op{Delegate: true, Label: l})
+			}
 			for _, a := range alpha {
 				if a.Label == l {
 					ops = append(ops, a)
